@@ -32,6 +32,8 @@ enum ParkState {
     Armed,
     Parked,
     Released,
+    /// released, and the point is armed again for the next arrival (one atomic hand-over)
+    ReleasedRearm,
 }
 
 fn state() -> &'static (Mutex<State>, Condvar) {
@@ -127,8 +129,14 @@ pub fn step(name: &str, detail: &str) {
             st = cv.wait(st).unwrap_or_else(|e| e.into_inner());
         }
         // the driver may already have re-armed this point for the next occurrence
-        if st.park.get(name) == Some(&ParkState::Released) {
-            st.park.remove(name);
+        match st.park.get(name) {
+            Some(ParkState::Released) => {
+                st.park.remove(name);
+            }
+            Some(ParkState::ReleasedRearm) => {
+                st.park.insert(name.to_string(), ParkState::Armed);
+            }
+            _ => {}
         }
     }
 }
@@ -183,6 +191,22 @@ pub fn release(name: &str) {
         }
         _ => {
             st.park.remove(name);
+        }
+    }
+    cv.notify_all();
+}
+
+/// Like `release` followed by `park_at`, but atomic: the released task cannot slip through the
+/// point's next occurrence before it is armed again.
+pub fn release_rearm(name: &str) {
+    let (m, cv) = state();
+    let mut st = m.lock().unwrap_or_else(|e| e.into_inner());
+    match st.park.get(name) {
+        Some(ParkState::Parked) => {
+            st.park.insert(name.to_string(), ParkState::ReleasedRearm);
+        }
+        _ => {
+            st.park.insert(name.to_string(), ParkState::Armed);
         }
     }
     cv.notify_all();
